@@ -22,7 +22,8 @@ VARIABLES
     l,
     rows,     \* [file id -> committed row]
     edges,    \* committed set of [t, s, m, d]
-    tx,       \* [pid -> [mode, rows, edges, touched]] open transactions (edges = the edge set as this tx sees it)
+    tx,       \* [pid -> [mode, rows, edges, touched, loaded]] open transactions (edges = the edge set as this tx sees it;
+              \*   loaded = ids of the rows read into memory inside this transaction)
     writer,   \* pid holding the write lock (an open BEGIN IMMEDIATE), 0 = none
     runids,   \* run ids handed out to top-level commands
     gone,     \* pids that die without logging (killed): their open transaction vanishes
@@ -51,6 +52,14 @@ Check ==
             IF ~Open(e.pid) THEN "write outside a transaction"
             ELSE IF tx[e.pid].mode # "imm" THEN "write in a transaction that did not take the write lock at its start"
             ELSE ""
+      [] e.ev = "RowLoad" -> ""
+      [] e.ev = "Decide" ->
+            \* C06: the decision whether to build a target is taken on its recorded state -- what the last writer
+            \* committed (or this transaction wrote) -- not on a copy read before somebody else recorded a result
+            LET view == IF Open(e.pid) /\ e.fid \in DOMAIN tx[e.pid].rows THEN tx[e.pid].rows[e.fid]
+                        ELSE IF e.fid \in DOMAIN rows THEN rows[e.fid]
+                        ELSE [gen |-> FALSE, ovr |-> FALSE, checked |-> -1, changed |-> -1, failed |-> -1, stamp |-> "", csum |-> ""]
+            IN IF RowOf(e) = view THEN "" ELSE "a build decision is taken on a record that is not the recorded one"
       [] e.ev = "Commit" -> IF Open(e.pid) THEN "" ELSE "commit without a transaction"
       [] e.ev = "Rollback" -> ""
       [] e.ev = "RunStart" ->
@@ -73,11 +82,14 @@ Step ==
             /\ rows' = << >> /\ edges' = {} /\ tx' = << >> /\ writer' = 0 /\ runids' = {}
             /\ gone' = {e.gone[i] : i \in 1..Len(e.gone)}
       [] e.ev = "TxBegin" ->
-            /\ tx' = Put(tx, e.pid, [mode |-> e.mode, rows |-> << >>, edges |-> edges, touched |-> FALSE])
+            /\ tx' = Put(tx, e.pid, [mode |-> e.mode, rows |-> << >>, edges |-> edges, touched |-> FALSE, loaded |-> {}])
             /\ writer' = IF e.mode = "imm" THEN e.pid ELSE writer
             /\ UNCHANGED <<rows, edges, runids, gone>>
       [] e.ev = "RowSave" ->
             /\ tx' = IF Open(e.pid) THEN [tx EXCEPT ![e.pid].rows = Put(@, e.id, RowOf(e))] ELSE tx
+            /\ UNCHANGED <<rows, edges, writer, runids, gone>>
+      [] e.ev = "RowLoad" ->
+            /\ tx' = IF Open(e.pid) THEN [tx EXCEPT ![e.pid].loaded = @ \cup {e.id}] ELSE tx
             /\ UNCHANGED <<rows, edges, writer, runids, gone>>
       [] e.ev = "DepAdd" ->
             /\ tx' = IF Open(e.pid) /\ e.id # e.srcid
